@@ -529,6 +529,96 @@ func (rw *rewriter) planMem() {
 		}
 		return true
 	})
+	// facts: where every captured-and-reassigned variable is declared and where it is assigned (function names as
+	// in the site table: root$k for the k-th function literal of root, in source order)
+	{
+		type span struct {
+			lo, hi token.Pos
+			name   string
+		}
+		var spans []span
+		counts := map[string]int{}
+		var stack []string
+		var visit func(n ast.Node) bool
+		visit = func(n ast.Node) bool {
+			switch x := n.(type) {
+			case *ast.FuncDecl:
+				name := x.Name.Name
+				if x.Recv != nil && len(x.Recv.List) > 0 {
+					name = recvBase(x.Recv.List[0].Type) + "." + name
+				}
+				spans = append(spans, span{x.Pos(), x.End(), name})
+				stack = append(stack, name)
+				if x.Body != nil {
+					ast.Inspect(x.Body, visit)
+				}
+				stack = stack[:len(stack)-1]
+				return false
+			case *ast.FuncLit:
+				root := "<pkg>"
+				if len(stack) > 0 {
+					root = stack[len(stack)-1]
+				}
+				if i := strings.IndexByte(root, '$'); i >= 0 {
+					root = root[:i]
+				}
+				counts[root]++
+				name := root + "$" + strconv.Itoa(counts[root])
+				spans = append(spans, span{x.Pos(), x.End(), name})
+				stack = append(stack, name)
+				ast.Inspect(x.Body, visit)
+				stack = stack[:len(stack)-1]
+				return false
+			}
+			return true
+		}
+		ast.Inspect(rw.file, visit)
+		fnAt := func(p token.Pos) string {
+			best := "<pkg>"
+			var bestLen token.Pos = 1 << 40
+			for _, sp := range spans {
+				if sp.lo <= p && p < sp.hi && sp.hi-sp.lo < bestLen {
+					best, bestLen = sp.name, sp.hi-sp.lo
+				}
+			}
+			return best
+		}
+		assignedIn := map[*types.Var]map[string]bool{}
+		ast.Inspect(rw.file, func(n ast.Node) bool {
+			var ids []*ast.Ident
+			switch x := n.(type) {
+			case *ast.AssignStmt:
+				if x.Tok != token.DEFINE {
+					for _, l := range x.Lhs {
+						if id, ok := l.(*ast.Ident); ok {
+							ids = append(ids, id)
+						}
+					}
+				}
+			case *ast.IncDecStmt:
+				if id, ok := x.X.(*ast.Ident); ok {
+					ids = append(ids, id)
+				}
+			}
+			for _, id := range ids {
+				if v, ok := info.Uses[id].(*types.Var); ok && captured[v] {
+					if assignedIn[v] == nil {
+						assignedIn[v] = map[string]bool{}
+					}
+					assignedIn[v][fnAt(id.Pos())] = true
+				}
+			}
+			return true
+		})
+		for v, fs := range assignedIn {
+			var names []string
+			for f := range fs {
+				names = append(names, f)
+			}
+			sort.Strings(names)
+			facts.Shared = append(facts.Shared, v.Name()+" "+fnAt(v.Pos())+" "+strings.Join(names, ","))
+		}
+	}
 	inComm := 0
 	pre := func(c *astutil.Cursor) bool {
 		n := c.Node()
@@ -1084,6 +1174,7 @@ type Facts struct {
 	RegisterCalls       map[string]int      `json:"registerCalls"`
 	Guards              map[string][]string `json:"guardsByFunc"`
 	Calls               map[string][]string `json:"callsByFunc"`
+	Shared              []string            `json:"sharedVars"` // "var declared-in assigned-in,…" for captured variables that are reassigned
 }
 
 var facts = Facts{Consts: map[string]int64{}, RegisterCalls: map[string]int{}, Guards: map[string][]string{}, Calls: map[string][]string{}}
